@@ -562,4 +562,96 @@ theorem model_uses_mode_dispatch :
     (∀ m m', collBranch m = collBranch m' → m = m') ∧ (∀ m, collBranch m = "str" ↔ m = .string) ∧ (∀ m, collBranch m = "flat" ↔ m = .onehot) :=
   ⟨modeOfName_modeName, modeOfName_sound, encodeValue_branch, collBranch_injective, encodeAt_string_iff, encodeAt_flat_iff⟩
 
+/-! ## Phase 6: option handling — constructor calls with arguments left out -/
+
+/-- `Generated/C10Options.lean` is rewritten from `coba/environments/filters.py` and `coba/environments/core.py` on every run: the default values of
+`Sparsify.__init__`, `Densify.__init__`, `Repr.__init__`, `Cycle.__init__`, of the shortcuts `Environments.sparse / dense / repr`, the documented
+method names of Densify and which of its own parameters each shortcut hands to the filter it builds — equal to the model's named defaults -/
+theorem option_defaults_match_source :
+    Coba.Generated.C10.sparsifyInitDefaults = [(sparsifyDefaults .filter).1, (sparsifyDefaults .filter).2] ∧
+    Coba.Generated.C10.envSparseDefaults = [(sparsifyDefaults .env).1, (sparsifyDefaults .env).2] ∧
+    Coba.Generated.C10.densifyInitFlagDefaults = [(densifyFlagDefaults .filter).1, (densifyFlagDefaults .filter).2] ∧
+    Coba.Generated.C10.envDenseFlagDefaults = [(densifyFlagDefaults .env).1, (densifyFlagDefaults .env).2] ∧
+    Coba.Generated.C10.densifyInitN = densifyDefaultN ∧ Coba.Generated.C10.densifyInitMethod = densifyDefaultMethod ∧
+    Coba.Generated.C10.densifyMethodNames = densifyMethodNames ∧
+    Coba.Generated.C10.reprInitDefaults = [optModeName (reprDefaults .filter).1, optModeName (reprDefaults .filter).2] ∧
+    Coba.Generated.C10.envReprDefaults = [optModeName (reprDefaults .env).1, optModeName (reprDefaults .env).2] ∧
+    Coba.Generated.C10.cycleInitAfter = cycleDefaultAfter ∧
+    Coba.Generated.C10.envSparsePasses = ["context", "action"] ∧
+    Coba.Generated.C10.envDensePasses = ["n_feats=n_feats", "method=method", "context=context", "action=action"] ∧
+    Coba.Generated.C10.envReprPasses = ["cat_context", "cat_actions"] := option_defaults_match_source'
+
+/-- `Densify._make_dense`'s dispatch on the method name, extracted from the source as a Lean function, is the model's for EVERY string -/
+theorem method_dispatch_matches_source (m : String) : Coba.Generated.C10.densifyBranch m = methodBranch m :=
+  method_dispatch_matches_source' m
+
+/-- the driver's parser of method names: `'lookup'` (and only it) reads the object's table, every other name hashes -/
+theorem methodOfName_lookup_iff (m : String) (prior : List String) (tbl : List (String × Nat)) :
+    (methodOfName m prior tbl = .lookup prior ↔ m = "lookup") ∧ (m ≠ "lookup" → methodOfName m prior tbl = .hashing tbl) :=
+  methodOfName_lookup_iff' m prior tbl
+
+/-- what a constructor call without arguments builds: `Sparsify()` = `Sparsify(True, False)`, `Densify()` = `Densify(400,'lookup',True,False)`,
+`Repr()` = `Repr(None, None)`, `envs.repr()` = the Repr inside Finalize, `Cycle()` = `Cycle(0)` -/
+theorem default_ctor_steps (k : Ctor) (prior : List String) (tbl : List (String × Nat)) :
+    mkSparsify k none none = .sparsify true false ∧
+    mkDensify k none none none none prior tbl = .densify 400 (.lookup prior) true false ∧
+    mkRepr .filter none none = .repr none none ∧
+    [Step.harden, mkRepr .env none none, .wrapSeqs] = expandStep .finalize ∧
+    mkCycle none = .cycle 0 := default_ctor_steps' k prior tbl
+
+/-- `Sparsify(context=c)` / `Densify(n, m, context=c)` with the `action` flag left out — through the class or the Environments shortcut, for every
+choice of the other arguments, every `Cfg` (repaired or not), every look-up history / hash table and EVERY stream: nothing but the contexts
+changes — actions, logged action, reward functions, feedback functions, logged reward and probability are literally the input's -/
+theorem default_action_flag_context_only (cfg : Cfg) (k : Ctor) (c : Option Bool) (n : Option Nat) (m : Option String)
+    (prior : List String) (tbl : List (String × Nat)) (s s' : List Inter) :
+    (runPrim cfg (mkSparsify k c none) s = .ok s' → s'.map nonContext = s.map nonContext) ∧
+    (runPrim cfg (mkDensify k n m c none prior tbl) s = .ok s' → s'.map nonContext = s.map nonContext) :=
+  default_action_flag_context_only' cfg k c n m prior tbl s s'
+
+/-- the same for an explicit `action=False` (any `Cfg`, any method, any stream) -/
+theorem sparsify_noaction_context_only (cfg : Cfg) (c : Bool) (s s' : List Inter)
+    (hrun : runPrim cfg (.sparsify c false) s = .ok s') : s'.map nonContext = s.map nonContext :=
+  sparsify_noaction_context_only' cfg c s s' hrun
+
+theorem densify_noaction_context_only (cfg : Cfg) (n : Nat) (m : DMethod) (c : Bool) (s s' : List Inter)
+    (hrun : runPrim cfg (.densify n m c false) s = .ok s') : s'.map nonContext = s.map nonContext :=
+  densify_noaction_context_only' cfg n m c s s' hrun
+
+/-- non-vacuity: the default `Sparsify()` runs on the phase-1 witness stream and really changes its context -/
+example : (match runPrim Cfg.asIs (mkSparsify .env none none) [{ context := .num 3, actions := some [.num 1, .num 2], rewards := some (.binary (.num 2) 1) }] with
+           | .ok [I] => pyEq I.context (.dict [("context", .num 3)]) && (match I.actions with | some [a, b] => pyEq a (.num 1) && pyEq b (.num 2) | _ => false)
+           | _ => false) = true := by decide +kernel
+
+/-! ## Phase 6: histories of reads of one filter object -/
+
+/-- ONE `Densify(lookup)` object after ANY history of reads (any number of `filter()` calls in any order: complete sequences, the items an aborted
+read got to before its source failed, the items an abandoned read got to before its consumer stopped), then applied to `B`: exactly what a
+fresh object gives on `B` when its table was first asked for the keys of the whole history, in order — nothing else of the history survives.
+(`densify_reuse_eq_prior` is the history of length one.) -/
+theorem densify_history_eq_prior (cfg : Cfg) (n : Nat) (c a : Bool) (B : List Inter) (hist : List (List Inter)) (p : List String) (T : DState)
+    (hT : primeKeys (.lookup []) (initDState n) p = .ok T)
+    (hH : ∃ T', runObjHistory cfg (.densify n (.lookup p) c a) T hist = .ok T') :
+    runObjAfter cfg (.densify n (.lookup p) c a) T hist B = runPrim cfg (.densify n (.lookup (p ++ historyKeys c a hist)) c a) B :=
+  densify_history_eq_prior' cfg n c a B hist p T hT hH
+
+/-- non-vacuity: a history of three reads (a, b | a | c) on a 4-slot object exists, leaves the table a, b, c and was asked for a, b, a, c -/
+example : (match runObjHistory Cfg.fixed (.densify 4 (.lookup []) false true) (initDState 4)
+      [[{ actions := some [.dict [("a", .num 1)], .dict [("b", .num 1)]] }], [{ actions := some [.dict [("a", .num 1)]] }],
+       [{ actions := some [.dict [("c", .num 1)]] }]] with
+    | .ok T' => T'.table.map (·.1) == ["a", "b", "c"]
+    | .error _ => false) = true
+    ∧ historyKeys false true [[{ actions := some [.dict [("a", .num 1)], .dict [("b", .num 1)]] }], [{ actions := some [.dict [("a", .num 1)]] }],
+       [{ actions := some [.dict [("c", .num 1)]] }]] = ["a", "b", "a", "c"] := by decide +kernel
+
+/-! ## Phase 6 (round i, im1): the re-keying of interaction k looks at interaction k only -/
+
+/-- every filter of the model (`runPrim`, any step, any `Cfg`), every stream, every position k: the rewards / feedbacks interaction k comes out with are
+`rekeyOpt` of ONE policy applied to interaction k's own reward function, its own old actions and its own new actions — no reward, argmax or action of any
+other interaction of the stream enters (the filter's first-interaction decisions choose the policy, nothing else is carried along the stream);
+logged reward and probability pass through.  A per-stream memo of translated argmaxes (seeded change im1) is exactly what this excludes. -/
+theorem rekey_local (cfg : Cfg) (st : Step) (s s' : List Inter) (h : runPrim cfg st s = .ok s') (k : Nat) (I : Inter) (hk : s[k]? = some I) :
+    ∃ J pR pF, s'[k]? = some J ∧ rekeyOpt pR I.rewards I.actions J.actions = .ok J.rewards ∧
+      rekeyOpt pF I.feedbacks I.actions J.actions = .ok J.feedbacks ∧ J.reward = I.reward ∧ J.probability = I.probability :=
+  rekey_local' cfg st s s' h k I hk
+
 end Coba.C10
